@@ -590,11 +590,11 @@ def stackLoadVar (cfg : Cfg) (f : FrameIn) (saId : Nat) (s : Emit × Nat) (varId
       let var := { var with cur := .reg var.cur.typeId outRt outId, done := true }
       .ok ({ e with ctx := (e.ctx.setW g w).setVar varId var }, ic)
 
-/-- `BaseEmitHelper::emit_args_assignment`: status ("ok" or the error name) and everything emitted before it -/
-def emitArgsAssignment (cfg : Cfg) (f : FrameIn) (argsSa : Nat) (vals : List (FuncValue × Option FuncValue)) : String × List Inst :=
+/-- `BaseEmitHelper::emit_args_assignment`: status (`none` = kOk, else the error name) and everything emitted before it -/
+def emitArgsAssignment (cfg : Cfg) (f : FrameIn) (argsSa : Nat) (vals : List (FuncValue × Option FuncValue)) : Option String × List Inst :=
   let a := cfg.arch
   match initWorkData a f argsSa vals with
-  | .error e => (e, [])
+  | .error e => (some e, [])
   | .ok ctx =>
     let n := ctx.vars.length
     let saOf (c : Ctx) : Nat := if c.saVarId < n then (c.var c.saVarId).cur.regId else f.saReg
@@ -602,19 +602,19 @@ def emitArgsAssignment (cfg : Cfg) (f : FrameIn) (argsSa : Nat) (vals : List (Fu
     let e0 : Emit := { ctx := ctx }
     let p1 := if ctx.stackDstMask ≠ 0 then forVars n (stackDstVar cfg f sa0) e0 else .ok e0
     match p1 with
-    | .error (m, e) => (m, e.out)
+    | .error (m, e) => (some m, e.out)
     | .ok e =>
       match shuffleLoop cfg n (2 * n + 8) e {} with
-      | .error (m, e) => (m, e.out)
+      | .error (m, e) => (some m, e.out)
       | .ok e =>
-        if !e.ctx.hasStackSrc then ("ok", e.out) else
+        if !e.ctx.hasStackSrc then (none, e.out) else
         let sa := if f.da && !f.fp then saOf e.ctx else sa0
         match (List.range n).foldlM (stackLoadVar cfg f sa) (e, 1) with
-        | .error (m, e) => (m, e.out)
+        | .error (m, e) => (some m, e.out)
         | .ok (e, ic) =>
-          if ic = 1 then ("ok", e.out) else
+          if ic = 1 then (none, e.out) else
           match (List.range n).foldlM (stackLoadVar cfg f sa) (e, ic) with
-          | .error (m, e) => (m, e.out)
-          | .ok (e, _) => ("ok", e.out)
+          | .error (m, e) => (some m, e.out)
+          | .ok (e, _) => (none, e.out)
 
 end AsmjitVerif.Shuffle
